@@ -14,6 +14,7 @@ SCHEMA = {
                            'dynamic_length_reference': ('opt', 'str'), 'use_calibrated_value': 'bool',
                            'length_linear_adjuster': ('opt', ('func', ADJ)), 'leading_length_size': ('opt', 'int'),
                            'termination_character': ('opt', 'bytes')},
+    'FloatDataEncoding': {'_struct_format': 'str', 'parse_func': ('func', 'xtce.encodings.FloatDataEncoding.parse_func')},
     'NumericDataEncoding': {
         'size_in_bits': 'int', 'encoding': 'str', 'byte_order': 'str',
         'default_calibrator': ('opt', CAL),
@@ -275,21 +276,57 @@ NOCTX = f'(is_none({CTXS}) or no_ctx_match(self, packet, {RAW}, len({CTXS})))'
 
 CONTRACTS += [
     Contract(
+        target='xtce.encodings.FloatDataEncoding.parse_func',
+        props=['C04', 'C08', 'C01'],
+        params={'data': 'bytes'}, captures={'self': ('rec', 'FloatDataEncoding')},
+        ghost={'function_value': True},
+        returns='real',
+        requires=[], ensures={'value': 'result == float_field(self, data)'},
+        modifies=[],
+        native_only=('ASSUMED contract on the function VALUE stored in the field parse_func: __init__ stores the one of its two '
+                     'closures (_mil_parse_func, ieee_parse_func - both proved against float_field below) that matches the '
+                     'encoding, and the struct format string for (byte order, size). The constructor is not verified; the '
+                     'selection is checked by the bounded native run of NumericDataEncoding.parse_value over every '
+                     'encoding / size / byte order'),
+    ),
+    Contract(
+        target='xtce.encodings.FloatDataEncoding.__init__._mil_parse_func',
+        props=['C04', 'C01'],
+        params={'mil_bytes': 'bytes'}, captures={'self': ('rec', 'FloatDataEncoding')},
+        returns='real',
+        requires=['len(mil_bytes) == 4', "self.encoding == 'MILSTD_1750A'"],
+        # C04 (PROVED): the MIL-STD-1750A value of the four bytes in the declared byte order
+        ensures={'value': ('result == float_field(self, mil_bytes)', ['__proof__'])},
+        hints=['float_field_mil(self, mil_bytes)'],
+        modifies=[],
+    ),
+    Contract(
+        target='xtce.encodings.FloatDataEncoding.__init__.ieee_parse_func',
+        props=['C04', 'C01'],
+        params={'data': 'bytes'}, captures={'self': ('rec', 'FloatDataEncoding')},
+        returns='real',
+        requires=["self.encoding != 'MILSTD_1750A'"],
+        # C04 (PROVED up to E2): struct.unpack with the stored format on exactly these bytes
+        ensures={'value': ('result == float_field(self, data)', ['__proof__'])},
+        hints=['float_field_ieee(self, data)'],
+        modifies=[],
+    ),
+    Contract(
         target='xtce.encodings.FloatDataEncoding._get_raw_value',
         props=['C04', 'C08', 'C14', 'C01'],
         params={'self': ('rec', 'FloatDataEncoding'), 'packet': PKT},
         returns='real',
-        requires=['self.size_in_bits >= 1', 'packet.raw_data.pos >= 0'],
+        requires=['self.size_in_bits >= 1', 'packet.raw_data.pos >= 0',
+                  # the stored closure captured this very encoding object (established by __init__)
+                  ('cap(self.parse_func, "self") == self', ['__proof__'])],
         ensures={
+            # C04 (PROVED): the float value of exactly the field's bits, read at the cursor whatever its alignment
             'value': ('result == float_field(self, tb(bits(packet.raw_data, old(packet.raw_data.pos), self.size_in_bits), '
                       'ceil8(self.size_in_bits)))'),
             'cursor': 'packet.raw_data.pos == old(packet.raw_data.pos) + self.size_in_bits',
         },
         raises={'ValueError': 'packet.raw_data.pos + self.size_in_bits > 8 * len(packet.raw_data)'},
         modifies=['packet.raw_data.pos'],
-        native_only=('the parsing closure is selected in __init__ and stored on the instance (parse_func); the IEEE decoding '
-                     'itself is struct.unpack (E2). The contract is ASSUMED by the proof of parse_value and checked by the '
-                     'bounded stand-in (NumericDataEncoding.parse_value native contract covers the float patterns)'),
     ),
     Contract(
         target='xtce.encodings.NumericDataEncoding.parse_value',
@@ -304,6 +341,7 @@ CONTRACTS += [
                                   f"{RAW} == int_decode(bits(packet.raw_data, old(packet.raw_data.pos), self.size_in_bits), "
                                   "self.size_in_bits, self.encoding, self.byte_order))", ['__proof__'])}},
                   'float': {'params': {'self': ('rec', 'FloatDataEncoding')},
+                            'requires': [('cap(self.parse_func, "self") == self', ['__proof__'])],
                             'returns': ('pval', [('FloatParameter', 'real')]),
                             'ensures': {'raw_is_field': (
                                 f'{RAW} == float_field(self, tb(bits(packet.raw_data, old(packet.raw_data.pos), '
